@@ -61,6 +61,19 @@ const (
 	PeerNoKey = -2 // identity without a public key
 )
 
+// PeerForger is a peer with a fresh key of its own that hosts no node (an
+// attacker's router); it only makes sense together with a forged Decl.
+const PeerForger = 7
+
+// Declared-ID codes (Msg.Decl): the deprecated, self-declared ID field of the
+// identity on the envelope / in the connection handshake.
+const (
+	DeclConsistent = 0  // the id derived from the key (what NewServerIdentity writes)
+	DeclZero       = -1 // all-zero ID
+	DeclRandom     = -2 // random ID
+	// k+1 (1..NServers): the ID value of server k's identity
+)
+
 // NServers is the size of the cluster; the last server never is in a tree ("outsider").
 const NServers = 7
 
@@ -79,6 +92,7 @@ type Msg struct {
 	From      int    `json:"from"`
 	OtherTree bool   `json:"other_tree,omitempty"` // From token carries a different TreeID
 	Peer      int    `json:"peer"`
+	Decl      int    `json:"decl,omitempty"` // declared ID field of the envelope identity (see DeclConsistent ...)
 	Wire      int    `json:"wire"` // ServerIdentity field inside the wire message: -1 nil, else server index
 	Type      int    `json:"type"`
 	Payload   int64  `json:"payload"`
@@ -167,8 +181,67 @@ type proto struct {
 }
 
 type cluster struct {
-	local   *onet.LocalTest
-	servers []*onet.Server
+	local     *onet.LocalTest
+	servers   []*onet.Server
+	tcp       bool
+	forger    *network.ServerIdentity
+	attackers []*network.Router
+}
+
+// envelopeIdentity builds the identity for peer code / declared-ID code.
+func (c *cluster) envelopeIdentity(peer, decl int) *network.ServerIdentity {
+	var base *network.ServerIdentity
+	switch {
+	case peer >= 0 && peer < NServers:
+		base = c.servers[peer].ServerIdentity
+	case peer == PeerForger:
+		if c.forger == nil {
+			_, c.forger = onet.NewPrivIdentity(suite, 2999)
+		}
+		base = c.forger
+	case peer == PeerNoKey:
+		base = &network.ServerIdentity{Address: "local://127.0.0.1:1"}
+	default:
+		return nil
+	}
+	if decl == DeclConsistent {
+		return base
+	}
+	cp := *base
+	switch {
+	case decl >= 1 && decl <= NServers:
+		cp.ID = c.servers[decl-1].ServerIdentity.ID
+	case decl == DeclZero:
+		cp.ID = network.ServerIdentityID{}
+	default:
+		cp.ID = network.ServerIdentityID(uuid.New())
+	}
+	return &cp
+}
+
+// attacker starts a router of its own whose handshake identity is id (TCP only).
+func (c *cluster) attacker(id *network.ServerIdentity) (*network.Router, error) {
+	if !c.tcp {
+		return nil, fmt.Errorf("a forged handshake identity needs the tcp cluster")
+	}
+	cp := *id
+	declared := cp.ID
+	cp.Address = network.NewAddress(network.PlainTCP, "127.0.0.1:0")
+	r, err := network.NewTCPRouter(&cp, suite)
+	if err != nil {
+		return nil, err
+	}
+	r.UnauthOk = true
+	cp.ID = declared
+	c.attackers = append(c.attackers, r)
+	return r, nil
+}
+
+func (c *cluster) stopAttackers() {
+	for _, r := range c.attackers {
+		r.Stop()
+	}
+	c.attackers = nil
 }
 
 type worker struct {
@@ -370,9 +443,11 @@ func (w *worker) run(sc *Scenario) {
 			return
 		}
 		cl = newCluster(onet.NewTCPTest(suite))
+		cl.tcp = true
 		w.clusters[net] = cl
 	}
 	w.local, w.servers = cl.local, cl.servers
+	defer cl.stopAttackers()
 	// ---- tree (built once per shape; registered again for every scenario)
 	key, _ := json.Marshal(sc.Tree)
 	key = append(key, net...)
@@ -529,13 +604,7 @@ loop:
 				from.TreeID = otherTree.ID
 			}
 		}
-		var peer *network.ServerIdentity
-		switch {
-		case m.Peer >= 0 && m.Peer < NServers:
-			peer = w.servers[m.Peer].ServerIdentity
-		case m.Peer == PeerNoKey:
-			peer = &network.ServerIdentity{Address: "local://127.0.0.1:1"}
-		}
+		peer := cl.envelopeIdentity(m.Peer, m.Decl)
 		var wire *network.ServerIdentity
 		if m.Wire >= 0 && m.Wire < NServers {
 			wire = w.servers[m.Wire].ServerIdentity
@@ -555,11 +624,28 @@ loop:
 			if m.Route == "process" {
 				ov.Process(&network.Envelope{ServerIdentity: peer, MsgType: onet.ProtocolMsgID, Msg: pm})
 			} else {
-				if m.Peer < 0 || m.Peer >= NServers || w.servers[m.Peer] == target {
-					status, detail = "error", "route conn needs a peer server different from the target"
-					break loop
+				type sender interface {
+					Send(e *network.ServerIdentity, msgs ...network.Message) (uint64, error)
 				}
-				src := w.servers[m.Peer]
+				var src sender
+				if m.Peer == PeerForger || m.Decl != DeclConsistent {
+					if peer == nil || peer.Public == nil {
+						status, detail = "error", "route conn with a forged identity needs a key"
+						break loop
+					}
+					r, err := cl.attacker(peer)
+					if err != nil {
+						status, detail = "error", "attacker router: "+err.Error()
+						break loop
+					}
+					src = r
+				} else {
+					if m.Peer < 0 || m.Peer >= NServers || w.servers[m.Peer] == target {
+						status, detail = "error", "route conn needs a peer server different from the target"
+						break loop
+					}
+					src = w.servers[m.Peer]
+				}
 				if _, err := src.Send(target.ServerIdentity, pm); err != nil {
 					status, detail = "error", "send: "+err.Error()
 					break loop
